@@ -141,7 +141,7 @@ pub fn count_filter_set<const M: usize>() {
     }
     assert!(listed == if observed { 1 } else { 0 });
     assert!(labels.len() <= M);
-    kani::cover!(labels.len() == M && M > 1);
-    kani::cover!(labels.len() == 1 && M > 1);
+    kani::cover!(M == 1 || labels.len() == M);
+    kani::cover!(labels.len() == 1);
     core::mem::forget(labels);
 }
